@@ -40,6 +40,13 @@ type Program struct {
 	implCache map[*types.Func][]*ssa.Function
 	sqlModel  *SQLModel
 	txModel   *txModel
+	declCache map[*types.Func]*ast.FuncDecl
+	clockVisiting map[*types.Var]bool
+	mutFns    map[*ssa.Function]bool
+	rootReach map[*ssa.Function]bool
+	memTrans  []Trans
+	memFlow   *stateFlow
+	sqlTrans  map[string][]Trans
 	callSites map[*ssa.Function][]ssa.CallInstruction
 }
 
